@@ -448,6 +448,9 @@ class _IndexMixin:
             )
         for arg in args:
             params[arg] = getattr(self, arg)
+        for arg in ("indexes", "alpha_ind", "beta_ind"):
+            if hasattr(self, arg):
+                params[arg] = getattr(self, arg)
         if deep:
             param_keys = list(params.keys())
             for k in param_keys:
